@@ -869,8 +869,9 @@ func evalMemberMethodExpr(vm *r.VM, expr *syntax.MemberMethodExpr) (r.Element, e
 			return nil, err
 		}
 
-		// bind yield result (a constant, as after a plain method call)
-		if err := vm.DeclareConstElement(vtag, vlast); err != nil {
+		// bind yield result (a constant, as after a plain method call) - like every other
+		// declaration the name holds its own copy of a list / dictionary / number
+		if err := vm.DeclareConstElement(vtag, value.DuplicateValue(vlast)); err != nil {
 			return nil, err
 		}
 	}
